@@ -138,6 +138,12 @@ func buildWorker(repo string) *build {
 		os.RemoveAll(dir)
 		fatal2("BUILD-FAILED go build of the instrumented worker failed (this is not a property violation):\n%s", out)
 	}
+	if kd := os.Getenv("VERIF_KEEP_WORKER"); kd != "" {
+		// debugging aid: a copy of the instrumented worker to run by hand
+		if bs, err := os.ReadFile(worker); err == nil {
+			os.WriteFile(kd, bs, 0o755)
+		}
+	}
 	return &build{dir: dir, worker: worker, overlay: rep, wall: time.Since(t0)}
 }
 
